@@ -50,6 +50,8 @@ type Sim struct {
 	InvSqrt2             *big.Rat // sum over successful swaps of 1/min(sqrt price before, after)^2 (token0 cost of one 1e-36 sqrt-price rounding per unit liquidity)
 	Legacy               bool     // unscaled spread-reward accumulator (pool id <= migration threshold)
 	LegacyInc            bool     // unscaled incentive accumulators
+	IncLedger            *IncLedger // C08: exact incentive attribution ledger (nil = off)
+	Ev                   *Event     // what the last successful action did (for the incentive ledger)
 
 	// classes observed
 	Classes map[string]int
@@ -284,6 +286,7 @@ func (s *Sim) CreatePosition(rt *rapid.T) {
 	cur := s.Pool().GetCurrentTick()
 	s.Known[resp.PositionId] = PosRec{Owner: a, Lower: resp.LowerTick, Upper: resp.UpperTick, Join: s.C.Ctx.BlockTime(), Gen: s.Gen, Entered: first || (cur >= resp.LowerTick-1 && cur <= resp.UpperTick)}
 	s.LPOps++
+	s.Ev = &Event{Kind: "create", ID: resp.PositionId, Owner: a}
 	switch {
 	case first:
 		s.class("first-position")
@@ -313,6 +316,7 @@ func (s *Sim) CreateSameRange(rt *rapid.T) {
 	cur := s.Pool().GetCurrentTick()
 	s.Known[resp.PositionId] = PosRec{Owner: a, Lower: resp.LowerTick, Upper: resp.UpperTick, Join: s.C.Ctx.BlockTime(), Gen: s.Gen, Entered: cur >= resp.LowerTick-1 && cur <= resp.UpperTick}
 	s.LPOps++
+	s.Ev = &Event{Kind: "create", ID: resp.PositionId, Owner: a}
 	s.class("same-range-position")
 	s.log("createSame#%d a%d [%d,%d) %s/%s liq=%s", resp.PositionId, a, resp.LowerTick, resp.UpperTick, a0, a1, resp.LiquidityCreated)
 }
@@ -344,8 +348,10 @@ func (s *Sim) AddToPosition(rt *rapid.T) {
 		rt.Fatalf("MsgAddToPosition returned position id %d which already exists", resp.PositionId)
 	}
 	delete(s.Known, id)
-	s.Known[resp.PositionId] = PosRec{Owner: p.Owner, Lower: p.Lower, Upper: p.Upper, Join: s.C.Ctx.BlockTime(), Mods: 1, Entered: p.Entered}
+	s.Known[resp.PositionId] = PosRec{Owner: p.Owner, Lower: p.Lower, Upper: p.Upper, Join: s.C.Ctx.BlockTime(), Mods: 1, Entered: p.Entered, Gen: s.Gen + 1}
 	s.LPOps += 2
+	s.Gen++ // add-to-position withdraws the old position, which may redeposit its forfeited incentives to the liquidity active then
+	s.Ev = &Event{Kind: "add", ID: id, NewID: resp.PositionId, Owner: p.Owner}
 	s.class("add-to-position")
 	s.log("add#%d->#%d %s/%s", id, resp.PositionId, a0, a1)
 }
@@ -382,6 +388,7 @@ func (s *Sim) Withdraw(rt *rapid.T) {
 		return
 	}
 	s.Gen++ // withdrawals may redeposit forfeited incentives
+	s.Ev = &Event{Kind: "withdraw", ID: id, Owner: p.Owner, Amt: amt, Full: full}
 	if full {
 		delete(s.Known, id)
 		s.class("full-withdrawal")
@@ -548,6 +555,7 @@ func (s *Sim) CollectIncentives(rt *rapid.T) {
 	if s.OnCollectIncentives != nil {
 		s.OnCollectIncentives(id, resp)
 	}
+	s.Ev = &Event{Kind: "collectInc", ID: id, Owner: p.Owner, Collected: resp.CollectedIncentives, Forfeited: resp.ForfeitedIncentives, HasResp: true}
 	s.Claims++
 	s.Gen++
 	s.class("collect-incentives")
@@ -596,8 +604,10 @@ func (s *Sim) CreateIncentive(rt *rapid.T) {
 	}
 	uptimes := s.C.App.ConcentratedLiquidityKeeper.GetParams(s.C.Ctx).AuthorizedUptimes
 	up := uptimes[rapid.IntRange(0, len(uptimes)-1).Draw(rt, "uptime")]
+	var rec cltypes.IncentiveRecord
 	err := s.C.Try(func(ctx sdk.Context) error {
-		_, err := s.C.App.ConcentratedLiquidityKeeper.CreateIncentive(ctx, s.PoolID, chain.Actor(a), coin(d, amt), rate, start, up)
+		var err error
+		rec, err = s.C.App.ConcentratedLiquidityKeeper.CreateIncentive(ctx, s.PoolID, chain.Actor(a), coin(d, amt), rate, start, up)
 		return err
 	})
 	if err != nil {
@@ -609,6 +619,7 @@ func (s *Sim) CreateIncentive(rt *rapid.T) {
 	}
 	s.IncentiveDeposited[d].Add(s.IncentiveDeposited[d], amt)
 	s.Gen++
+	s.Ev = &Event{Kind: "incentive", Owner: a, Rec: &rec, Deposit: coin(d, amt)}
 	s.class("incentive-created")
 	s.log("incentive %s%s rate=%s start=+%s uptime=%s", amt, d, rate, start.Sub(s.C.Ctx.BlockTime()), up)
 }
@@ -632,8 +643,31 @@ func (s *Sim) AdvanceTime(rt *rapid.T) {
 	s.log("+%s", dt)
 }
 
+// WrapLedger runs an action under the incentive ledger (no-op when the ledger is off): the state the accumulator
+// update of the step sees is read before the action, the ledger is advanced and the step's coin flows checked after it.
+func (s *Sim) WrapLedger(f func(*rapid.T)) func(*rapid.T) {
+	return func(rt *rapid.T) {
+		if s.IncLedger == nil {
+			f(rt)
+			return
+		}
+		pre := s.incPre()
+		s.Ev = nil
+		f(rt)
+		s.incApply(rt, pre, s.Ev)
+	}
+}
+
 // Actions returns the rapid state-machine action table.
 func (s *Sim) Actions() map[string]func(*rapid.T) {
+	acts := s.actions()
+	for k, f := range acts {
+		acts[k] = s.WrapLedger(f)
+	}
+	return acts
+}
+
+func (s *Sim) actions() map[string]func(*rapid.T) {
 	return map[string]func(*rapid.T){
 		"create":           s.CreatePosition,
 		"create2":          s.CreatePosition,
